@@ -53,7 +53,14 @@ func (w *Writer) Emit(ev map[string]any) {
 	}
 	w.w.Write(b)
 	w.w.WriteByte('\n')
+	if crashFile != "" { // a crash of the code under test must not take the events of earlier inputs with it
+		w.w.Flush()
+	}
 }
+
+// VERIF_CRASHFILE: the pipeline wants to know which input was running if the process dies (a panic in a goroutine of
+// the code under test cannot be recovered by the driver): EachInput writes every input there before running it.
+var crashFile = os.Getenv("VERIF_CRASHFILE")
 
 func (w *Writer) Seq() int { w.mu.Lock(); defer w.mu.Unlock(); return w.seq }
 
@@ -133,6 +140,9 @@ func EachInput(t testing.TB, fn func(raw []byte)) {
 			continue
 		}
 		b := append([]byte(nil), sc.Bytes()...)
+		if crashFile != "" {
+			_ = os.WriteFile(crashFile, b, 0o644)
+		}
 		fn(b)
 	}
 	if err := sc.Err(); err != nil {
